@@ -92,17 +92,18 @@ func targetName(op *Op, w *World) string {
 }
 
 type stepCtx struct {
-	sc      *Scenario
-	hc      *HistCase
-	out     *Outcome
-	i       int
-	op      *Op
-	res     *ProcResult
-	before  map[string]string
-	after   map[string]string
-	target  string
-	clock   time.Time
-	faulted bool
+	sc        *Scenario
+	hc        *HistCase
+	out       *Outcome
+	i         int
+	op        *Op
+	res       *ProcResult
+	writeEdit bool // an edit by somebody else was applied between the command's read and its write
+	before    map[string]string
+	after     map[string]string
+	target    string
+	clock     time.Time
+	faulted   bool
 	// a file was changed by somebody else while the process ran (pause)
 	midEdit      *EditFault
 	midEditBytes string // content of the target right after the edit ("\x00absent" if removed)
@@ -194,6 +195,13 @@ func (histEngine) execute(sc *Scenario) *Outcome {
 		spec := &ProcSpec{Argv: resolveArgv(op.Argv, root, op.ArgForm&32 != 0), Tape: op.Tape, MapTape: op.MapTape, MapOrder: op.MapOrder, Plan: op.Plan,
 			Base: clock, ZoneMin: w.ZoneMin, ZoneName: w.ZoneName, Root: root, Stdin: op.Stdin, Cpus: cpus, Env: env, Steps: op.Steps, LongRun: op.Kind == "pause" || op.follows()}
 		c := &stepCtx{sc: sc, hc: hc, out: out, i: i, op: op}
+		if op.WriteEdit != nil {
+			we := op.WriteEdit
+			spec.BeforeFirstWrite = func() {
+				applyEdit(hw, we, out)
+				c.writeEdit = true
+			}
+		}
 		spec.OnEdit = func(e *EditFault, reads, writes int) {
 			applyEdit(hw, e, out)
 			c.midEdit, c.readsAtEdit, c.writesAtEdit = e, reads, writes
@@ -289,6 +297,21 @@ func applyEdit(hw *histWorld, e *EditFault, out *Outcome) {
 		}
 		t += "\n1999-12-31\n    30m added by somebody else\n"
 		_ = os.WriteFile(p, []byte(t), 0o644)
+	case "drop_first_record":
+		// somebody else saves a shorter version: the first record (up to and including the blank lines after it) is gone
+		b, err := os.ReadFile(p)
+		if err != nil {
+			return
+		}
+		lines := strings.SplitAfter(string(b), "\n")
+		i := 0
+		for i < len(lines) && strings.Trim(lines[i], " \t\r\n") != "" {
+			i++
+		}
+		for i < len(lines) && strings.Trim(lines[i], " \t\r\n") == "" {
+			i++
+		}
+		_ = os.WriteFile(p, []byte(strings.Join(lines[i:], "")), 0o644)
 	case "remove":
 		_ = os.RemoveAll(p)
 	case "mkdir":
@@ -338,6 +361,17 @@ func (c *stepCtx) judge() {
 			prop = "C06"
 		}
 		c.report(prop, "hang", cmdSite, "the command never finished")
+		return
+	}
+	if c.writeEdit {
+		// somebody else saved the file between this command's read and its write: whose version survives is not
+		// for the properties to say, but a command that reports success must still leave a file that parses
+		out.stat("edit_between_read_and_write_judged", 1)
+		if op.mutating() && !res.Failed && !c.faulted {
+			if _, ok := parseState(c.after[c.target]); !ok {
+				c.report("C05", "success-invalid-file", cmdSite, fmt.Sprintf("somebody else saved the file between klog's read and klog's write; klog reported success and the file no longer parses: %q", shortText(c.after[c.target], 300)))
+			}
+		}
 		return
 	}
 	if !op.mutating() {
